@@ -83,7 +83,7 @@ PROPS["C05"] = {
 }
 PROPS["C13"] = {
     "suites": [{"name": "resp", "args": ["-opt", "c13"], "stateful": True, "seq_marker": "case", "quick": 1500, "thorough": 30000, "thorough_seeds": 3}],
-    "trip_re": "cell_differs",
+    "trip_re": "cell_differs|stored_variant_not_best_profile.*",
     "rule": _RESP_RULE + " The table cells {accepts none/gzip/br/both/other} x {stored variants} x {below/at/above threshold} x {type matches or not} x "
             "{cacheable or not} are all produced by this generator (case_classes in the evidence lists the outcome classes hit).",
     "assumptions": ["'at threshold' is not compressed (pinned from the unchanged code and docs)"],
@@ -138,7 +138,7 @@ PROPS["C10"] = {
 PROPS["C18"] = {
     "suites": [{"name": "sched", "stateful": True, "quick": 1000, "thorough": 20000, "thorough_seeds": 3},
                {"name": "disp", "stateful": True, "quick": 60, "thorough": 600, "thorough_seeds": 3}],
-    "trip_re": "served_from_purged|record_survives|blocked",
+    "trip_re": "served_from_purged|record_survives|blocked|purge_touched_other",
     "rule": _SCHED_RULE + " disp: named / unnamed / unknown-cache purges on two real dispatchers with stores.",
     "assumptions": ["a fetch in flight at purge time may persist its result afterwards (the property only requires non-blocking there)"],
     "trusted_base": _SYS_TRUSTED,
@@ -217,8 +217,9 @@ PROPS["C08"] = {
 }
 
 PROPS["C16"] = {
-    "suites": [{"name": "reconf", "stateful": True, "quick": 400, "thorough": 8000, "thorough_seeds": 3}],
-    "trip_re": "differs_from_fresh.*|surviving_cache_replaced|removed_still_listening|not_listening_as_configured",
+    "suites": [{"name": "reconf", "stateful": True, "quick": 400, "thorough": 8000, "thorough_seeds": 3},
+               {"name": "loc", "quick": 400, "thorough": 8000, "thorough_seeds": 1}],
+    "trip_re": "differs_from_fresh.*|surviving_cache_replaced|removed_still_listening|not_listening_as_configured|routing",
     "rule": "reconf: sequences of 2-6 valid configurations over 3 compress profiles (incl. one named bestCompression), 3 caches, 3 upstreams, "
             "3 locations, 3 server addresses — each present or absent, options changing (levels, sizes, policy, Accept-Encoding, added "
             "headers, cache/compress binding, min length set or unset, filter set or unset) — applied to the REAL registries in main.update's "
